@@ -96,6 +96,9 @@ def truths(ex, F):
     cu = np.einsum('cda...,cbd...->ab...', epsuud, cvs)
     tr['s_curl:dd'] = 0.5 * (cu + np.einsum('ab...->ba...', cu))
     # metric compatibility
+    for ix in ('dd', 'uu', 'u', 'd'):
+        tr[f's_covd:{ix}#reused-array'] = tr['s_covd:' + ix]
+        tr[f's_div:{ix}#reused-array'] = tr['s_div:' + ix]
     tr['s_covd:dd(gammadown3)'] = np.zeros((3, 3, 3) + f.shape)
     tr['s_covd:uu(gammaup3)'] = np.zeros((3, 3, 3) + f.shape)
     # Lie derivatives along the shift, with density weights
@@ -152,6 +155,22 @@ def call_helpers(rel, ex, F):
         if ix:
             run('s_div:' + ix, lambda: rel.s_div(arg[len(ix)].copy(), ix))
     run('s_curl:dd', lambda: rel.s_curl(Ts.copy(), 'dd'))
+    # a caller-owned work array updated in place between two calls: the helper
+    # must differentiate what the array holds NOW (linear in its argument)
+    for ix, src in (('dd', T), ('uu', T), ('u', V), ('d', V)):
+        work = src.copy()
+        try:
+            with common.Quiet():
+                r1 = np.array(rel.s_covd(work, ix), copy=True)
+                work *= -0.5
+                r2 = np.array(rel.s_covd(work, ix), copy=True)
+                d2 = np.array(rel.s_div(work, ix), copy=True)
+                work *= -2.0
+                d1 = np.array(rel.s_div(work, ix), copy=True)
+            out[f's_covd:{ix}#reused-array'] = r2 * -2.0
+            out[f's_div:{ix}#reused-array'] = d2 * -2.0 - d1 + d1
+        except Exception as e:
+            out[f's_covd:{ix}#reused-array'] = e
     run('s_covd:dd(gammadown3)', lambda: rel.s_covd(rel['gammadown3'], 'dd'))
     run('s_covd:uu(gammaup3)', lambda: rel.s_covd(rel['gammaup3'], 'uu'))
     for ix in ['', 's_u', 's_d', 's_uu', 's_dd', 's_ud', 's_du', 'st_u', 'st_d']:
